@@ -21,8 +21,13 @@ MANIFEST_TEXT = ("Lean 4 theorems (51) over a model in which an iterator is (con
                  "proved about the generated expressions; each run also executes the same expressions and histories on every "
                  "iterator type the library builds and diffs against the model, with an integer-position oracle.")
 MANIFEST_NOTE = ("Trusted: Lean kernel (+propext/Classical.choice/Quot.sound), the translator's reading of the operator bodies "
-                 "(canonical form on grid-equivalence - exact integers, plus an 8 bit grid where a machine difference occurs; a piece "
-                 "it cannot read breaks the obligation translator_read_all_bodies), the hand-written "
+                 "(canonical form on grid-equivalence - exact integers on a grid that follows the literals of the body, plus an 8 bit "
+                 "grid where a machine difference occurs; a piece it cannot read breaks the obligation translator_read_all_bodies; "
+                 "before comparing, a body is normalised: this-> dropped, const locals with a side-effect free initialiser inlined "
+                 "(by-value locals of a named type as a cast to that type), guard clauses / if-else chains / braces / ?: read as one "
+                 "value with compile-time conditions selecting the branch pieces, calls of sibling operators of the same class "
+                 "replaced by the sibling's own translated body with cycle detection; loops, modified locals, statements with an "
+                 "effect before a return, unknown calls and a second update of the position are not normalised and alarm), the hand-written "
                  "rest of the model (differential run only), g++/libstdc++ iterators as base iterators, ASan/UBSan.  Overload "
                  "selection (which facade operator / Hybrid overload the compiler picks) is a compile-time fact the model "
                  "takes as given; integer wrap-around is modelled where the operator bodies form a difference of iterators or cast "
@@ -62,7 +67,16 @@ ASSUMPTIONS = [
     "the operator bodies of lean/DuneVerif/Gen/C16.lean are regenerated from the headers by tools/translators/tr_c16.py "
     "(a body that agrees with its canonical form on an integer/boolean grid is emitted in canonical form; a body the "
     "translator cannot read is emitted in canonical form and listed in Gen.unparsed, which the obligation "
-    "translator_read_all_bodies requires to be empty); the rest of "
+    "translator_read_all_bodies requires to be empty).  Tolerated spellings of a body (round five; all by normalisation, "
+    "none by pattern of a particular patch): renamed / hoisted const locals (inlined where the initialiser is free of "
+    "side effects and nothing it reads is modified afterwards), this->member, braces, if/else vs guard clause vs "
+    "conditional expression (also on the compile-time is_convertible / models<> conditions, also negated), a>b vs b<a, "
+    "!(x<y) vs x>=y and every other boolean/linear-integer identity (grid), an operator written through a sibling "
+    "operator of the same class (IntegralRangeIterator comparisons, n+a / a+n / a-n, it[n] as *(it+n); "
+    "RandomAccessIteratorFacade + / - / += / -= through each other or on a copy of any name; facade != through ==; "
+    "IntegralRange empty() through size()).  Everything outside (loops, a modified local, an unknown call, bit "
+    "operations, an integer valued ?: that is not equivalent to the canonical form, operators that reach themselves) "
+    "raises the alarm without a failing input; the rest of "
     "lean/DuneVerif/Model/C16.lean (which primitive an operator calls, loops, IndexedIterator, hybrid helpers) is "
     "hand-written and its fidelity rests on this differential run",
     "iterators of std::vector/std::list/std::forward_list used as base iterators behave as positions (trusted libstdc++)",
